@@ -10,7 +10,11 @@ def nontrivial(case, mout):
 def _ends_cr(case, mout):
     """text ends in a lone CR: `text ++ "\\n"` turns it into a CR LF line end, the text comes back without the CR
     and the signature (made over the text with the CR) does not verify on the re-read message"""
-    return case.get("op") == "readback" and case["args"][0].endswith("0d")
+    if case.get("op") == "readback" and case["args"][0].endswith("0d"):
+        return True
+    rp = case.get("rp") or []
+    # the same texts in the tampering stream: the conversions that must keep the signature valid start from a document that already does not verify
+    return len(rp) >= 3 and rp[0] == "tamper" and rp[1].endswith("0d") and rp[2] in ("crlf", "trailing-blanks")
 
 KNOWN = {"csf-text-ends-with-cr": _ends_cr}
 
